@@ -20,6 +20,9 @@ fn with_case<T>(property: &'static str, strict: bool, f: impl FnOnce(&mut Case) 
 pub const TARGETS: [&str; 4] = ["c11_decode", "c12_front", "c14_backend", "c16_request"];
 
 pub fn property_of(target: &str) -> &'static str {
+    if let Some(p) = target.strip_prefix("tape:") {
+        return TAPE_PROPERTIES.iter().find(|x| **x == p).copied().unwrap_or("C01");
+    }
     match target {
         "c11_decode" => "C11",
         "c12_front" => "C12",
@@ -28,8 +31,96 @@ pub fn property_of(target: &str) -> &'static str {
     }
 }
 
+/// properties that have a tape-driven libFuzzer target (`tape_prop`, property chosen by VERIF_FUZZ_PROPERTY)
+pub const TAPE_PROPERTIES: [&str; 14] = ["C01", "C02", "C03", "C04", "C05", "C06", "C07", "C08", "C09", "C10", "C13", "C15", "C19", "C20"];
+
+/// libFuzzer target of a property: its own byte-level target, or the generic tape target
+pub fn target_of(property: &str) -> Option<String> {
+    match property {
+        "C11" => Some("c11_decode".into()),
+        "C12" => Some("c12_front".into()),
+        "C14" => Some("c14_backend".into()),
+        "C16" => Some("c16_request".into()),
+        p if TAPE_PROPERTIES.contains(&p) => Some(format!("tape:{}", p)),
+        _ => None,
+    }
+}
+
+/// bytes -> (phase selector, tape) -> the property's own check functions (same oracles as the proptest-driven run)
+fn run_tape(property: &str, data: &[u8], strict: bool) -> Result<(), String> {
+    let sel = data.first().copied().unwrap_or(0) as usize;
+    let cells = cells_from_bytes(data.get(1..).unwrap_or(&[]));
+    let p: &'static str = TAPE_PROPERTIES.iter().find(|x| **x == property).copied().ok_or_else(|| format!("no tape target for {}", property))?;
+    with_case(p, strict, |c| match p {
+        "C01" => checks::c01::check_tape(&cells, c, &crate::ggen::Feat::core()),
+        "C02" => {
+            if sel % 2 == 0 {
+                checks::c02::check_generated(&cells, c)
+            } else {
+                checks::c02::check_balanced(&cells, c)
+            }
+        }
+        "C03" => {
+            if sel % 2 == 0 {
+                checks::c03::check_random(&cells, c)
+            } else {
+                checks::c03::check_multi_block(&cells, c)
+            }
+        }
+        "C04" => checks::c04::check_case(&cells, c),
+        "C05" => {
+            if sel % 2 == 0 {
+                checks::c05::check_case(&cells, c)
+            } else {
+                checks::c05::check_aimed(&cells, c)
+            }
+        }
+        "C06" => {
+            if sel % 2 == 0 {
+                checks::c06::check_program(&cells, c)
+            } else {
+                checks::c06::check_tree(&cells, c)
+            }
+        }
+        "C07" => match sel % 3 {
+            0 => checks::c07::check_case(&cells, c, false),
+            1 => checks::c07::check_tree(&cells, c),
+            _ => checks::c07::check_resolver(&cells, c),
+        },
+        "C08" => checks::c08::check_case(&cells, c),
+        "C09" => checks::c09::check_case(&cells, c),
+        "C10" => {
+            if sel % 2 == 0 {
+                checks::c10::check_case(&cells, c)
+            } else {
+                checks::c10::check_data_case(&cells, c)
+            }
+        }
+        "C13" => {
+            if sel % 4 == 0 {
+                checks::c13::check_valid(&cells, c)
+            } else {
+                checks::c13::check_case(&cells, c)
+            }
+        }
+        "C15" => checks::c15::check_tape(&cells, c),
+        "C19" => checks::c19::check_case(&cells, c),
+        _ => {
+            if sel % 2 == 0 {
+                checks::c20::check_case(&cells, c)
+            } else {
+                checks::c20::check_tight(&cells, c)
+            }
+        }
+    })
+    .map_err(|f| format!("{}: {}", f.clause, f.detail))
+}
+
 pub fn run(target: &str, data: &[u8], strict: bool) -> Result<(), String> {
     crate::util::install_panic_hook();
+    if let Some(p) = target.strip_prefix("tape:") {
+        return run_tape(p, data, strict);
+    }
     match target {
         "c11_decode" => {
             let r = checks::c11::decode_garbage(data);
